@@ -244,7 +244,7 @@ static std::string stepLine(State& s, const std::vector<std::string>& w)
         if (w[2] == "stream" && w.size() == 4) { slot.enc.setStreamId(static_cast<uint8_t>(nat(w[3]))); return "ok"; }
         if (w[2] == "restart" && w.size() == 3) { slot.enc.restart(); return "ok"; }
         if (w[2] == "seq" && w.size() == 3) return "seq " + std::to_string(slot.enc.getSequenceCounter());
-        if (w[2] == "encode" && w.size() >= 5)
+        if ((w[2] == "encode" || w[2] == "encodep" || w[2] == "encode1") && w.size() >= 5)
         {
             DataContext ctx{static_cast<size_t>(nat(w[3])), static_cast<size_t>(nat(w[4]))};
             if (!(ctx.maxBytesPerMessage >= 25 && ctx.minBytesPerMessage <= ctx.maxBytesPerMessage)) return "bad-ctx";
@@ -255,7 +255,21 @@ static std::string stepLine(State& s, const std::vector<std::string>& w)
                 if (it == s.pkts.end() || !it->second.payload) return "bad-batch";
                 batch.push_back(it->second);
             }
-            slot.frames = slot.enc.encode(batch.begin(), batch.end(), ctx);
+            if (w[2] == "encodep")
+            {
+                // the overload taking iterators over shared_ptr<Packet>
+                std::vector<std::shared_ptr<Packet>> ptrs;
+                for (auto& p : batch) ptrs.push_back(std::make_shared<Packet>(p));
+                slot.frames = slot.enc.encode(ptrs.begin(), ptrs.end(), ctx);
+            }
+            else if (w[2] == "encode1")
+            {
+                // the single-packet overload
+                if (batch.size() != 1) return "bad-batch";
+                slot.frames = slot.enc.encode(batch[0], ctx);
+            }
+            else
+                slot.frames = slot.enc.encode(batch.begin(), batch.end(), ctx);
             std::ostringstream o;
             o << "frames " << slot.frames.size();
             for (auto& f : slot.frames) o << " " << toHex(f.data(), f.size());
